@@ -1,5 +1,6 @@
 """C12 -- one resource tracker serves the whole process tree and is self-healing."""
 from ..rules import tracker as T
+from ..rules import process as Pr
 
 EXPLANATION = (
     "Static analysis. Decides: get_preparation_data ensures the tracker runs before reading its fd/pid, the keys written "
@@ -9,7 +10,8 @@ EXPLANATION = (
     "only afterwards; ensure_running blocks {SIGINT, SIGTERM} before the spawn and restores the mask in finally (R-SIG); "
     "ensure_running runs under its lock, reuses a live tracker, and for a dead one closes the fd, reaps, resets both fields "
     "and FALLS THROUGH to the launch, which installs fd/pid only after a successful spawn, closes w on failure and r on all "
-    "paths; maybe_unlink ensures the tracker runs first (R-RELAUNCH); the loop ends only at EOF (R-RT-LOOP). Not decided: "
+    "paths; maybe_unlink ensures the tracker runs first (R-RELAUNCH); the loop ends only at EOF, tested on the raw "
+    "readline() result (R-RT-LOOP); the tracker is started under the module name of this copy (R-VENDOR). Not decided: "
     "that all processes of a real tree observe one pid; timing of the sweep (follows from pipe EOF semantics)."
 )
 
@@ -20,5 +22,6 @@ def run(e, R, tier):
         T.r_sig,
         T.r_relaunch,
         T.r_rt_loop,
+        Pr.r_vendor,
     ])
     R.trust("stdlib ResourceTracker.getfd() = ensure_running(); return self._fd; _check_alive() probes the pipe with a PROBE line")
